@@ -72,6 +72,20 @@ Theorem C15_wred_between_explicit : forall (sand : bool) (fka wp gpv : R),
   wp < fka -> let p := route_explicit fka wp gpv in l_wmin p < wred_explicit sand fka wp < l_w p.
 Proof. exact wred_explicit_lemma. Qed.
 
+(* Input with PTF = 0 decides the route per horizon (explicit values where the file gives FKA > 0, the table elsewhere — mixed
+   profiles included); the first layer and WRED both come from the first horizon.  Explicit values: any stone content st
+   (neither the parameters nor the threshold are scaled on that route), needs WP < FC.  Table: the hypothesis is what the
+   generated C15_table_wred_between gives for every stone fraction. *)
+Theorem C15_wred_between_file_route : forall (n : nat) (t : texture) (fk nfk pv : Z) (c st : R) (ukt : Z) (fka wp gpv : R)
+  (r : list (fhorizon (T:=R))) (grw : R),
+  let h : fhorizon (T:=R) := ((t, (fk, nfk, pv), c, st, ukt), (fka, wp, gpv)) in
+  (0 < n)%nat -> (0 < ukt)%Z ->
+  (if Rlt_dec 0 fka then wp < fka
+   else let ho := hydro t fk nfk pv grw c st in let p := route_table ho st in l_wmin p < ho_wred ho < l_w p) ->
+  let p := file_params n (h :: r) grw in
+  nth 0 (P_wmin p) 0 < P_wred p < nth 0 (P_w p) 0.
+Proof. exact wred_between_file_route. Qed.
+
 (* PTF route (input.go:269) *)
 Theorem C15_wred_between_fraction : forall (sand : bool) (p : lpar (T:=R)),
   l_wmin p < l_w p -> l_wmin p < wred_fraction sand p < l_w p.
@@ -151,6 +165,7 @@ Print Assumptions C15_table_check_ordered.
 Print Assumptions C15_table_check_wred.
 Print Assumptions C15_wred_between.
 Print Assumptions C15_wred_between_explicit.
+Print Assumptions C15_wred_between_file_route.
 Print Assumptions C15_wred_between_fraction.
 Print Assumptions C15_wred_between_restore.
 Print Assumptions C15_wred_table_stones_instance.
